@@ -4,6 +4,7 @@ import (
 	"fmt"
 	"go/token"
 	"sort"
+	"strings"
 
 	"golang.org/x/tools/go/ssa"
 )
@@ -13,18 +14,25 @@ import (
 // an outer loop) is an early exit: the remaining elements are not processed.
 
 type rangeLoop struct {
-	f      *ssa.Function
-	header *ssa.BasicBlock
-	body   map[*ssa.BasicBlock]bool
-	over   string // org of the ranged value
-	pos    token.Pos
-	isMap  bool
+	f        *ssa.Function
+	header   *ssa.BasicBlock
+	body     map[*ssa.BasicBlock]bool
+	over     string // org of the ranged value
+	overType string
+	pos      token.Pos
+	isMap    bool
 }
 
 func rangeLoops(f *ssa.Function) []*rangeLoop {
 	var out []*rangeLoop
 	for _, ml := range mapLoops(f) {
-		out = append(out, &rangeLoop{f: f, header: ml.header, body: ml.body, over: org(ml.rng.X), pos: ml.rng.Pos(), isMap: true})
+		body := map[*ssa.BasicBlock]bool{}
+		for x := range ml.body {
+			if x == ml.header || reaches(x, ml.header) {
+				body[x] = true
+			}
+		}
+		out = append(out, &rangeLoop{f: f, header: ml.header, body: body, over: org(ml.rng.X), overType: typeStr(ml.rng.X.Type()), pos: ml.rng.Pos(), isMap: true})
 	}
 	for _, b := range f.Blocks {
 		for _, in := range b.Instrs {
@@ -43,6 +51,7 @@ func rangeLoops(f *ssa.Function) []*rangeLoop {
 							}
 							if k, ok := cmp.Y.(*ssa.Call); ok && calleeName(k) == "builtin:len" {
 								l.over = org(k.Call.Args[0])
+								l.overType = typeStr(k.Call.Args[0].Type())
 								if l.pos == token.NoPos {
 									l.pos = k.Pos()
 								}
@@ -125,32 +134,69 @@ func (c *Ctx) earlyExits(l *rangeLoop) []loopExit {
 	return out
 }
 
-// exhaustiveLoopsRule: every range loop of the named functions is exhaustive, except the loops listed in allow
-// (function -> ranged value org -> reason).
-func exhaustiveLoopsRule(id string, min int, allow map[string]map[string]string, funcs ...string) Rule {
-	return Rule{ID: id, Doc: "loops that must process every element are left only by exhaustion or failure", Min: min, Run: func(c *Ctx) {
-		for _, n := range funcs {
+// reviewed search loops (function -> type of the ranged value -> reason): the early exit is the point of the loop.
+var a2SearchLoops = map[string]map[string]string{
+	"(*in_toto.Envelope).GetSignatureForKeyID":  {"[]in_toto.Signature": "search: returns the first signature with the requested key id"},
+	"(*in_toto.Metablock).GetSignatureForKeyID": {"[]in_toto.Signature": "search: returns the first signature with the requested key id"},
+	"(in_toto.Step).CheckCertConstraints":       {"[]in_toto.CertificateConstraint": "existential test: succeeds at the first constraint that matches (R-C07-5 decides the exits)"},
+	"in_toto.LoadLinksForLayout":                {"[]in_toto.Signature": "search: the first signature whose key id has the file name's short id as prefix names the link"},
+	"in_toto.VerifyLinkSignatureThesholds":      {"[]string": "search: is the signer key id among the step's pubkeys (R-C02-1 decides what is stored)"},
+	"in_toto.VerifyStepCommandAlignment":        {"[]in_toto.Step": "warn-only stage, returns nothing", "map[string]in_toto.Metadata": "warn-only stage, returns nothing"},
+	"in_toto.matchKeyTypeScheme":                {"[]string": "search: is the scheme among the supported schemes of the key type"},
+	"in_toto.recordArtifacts$1":                 {"[]string": "first matching left-strip prefix only (R-C13-3 decides the shape)"},
+}
+
+// exhaustiveLoopsRule (A2): every range loop of the functions reachable from the roots (within the analysed packages)
+// is left only by exhaustion or into a failing continuation, except the reviewed search loops.
+func exhaustiveLoopsRule(min int, roots ...string) Rule {
+	const id = "A2"
+	return Rule{ID: id, Doc: "loops that must process every element are left only by exhaustion or failure (roots: " + strings.Join(roots, ", ") + ")", Min: min, Run: func(c *Ctx) {
+		var rf []*ssa.Function
+		for _, n := range roots {
 			f := c.lookup(n)
 			if f == nil {
 				c.undecided(id, n, "anchor", 0, "function not found")
 				continue
 			}
+			rf = append(rf, f)
+		}
+		var fns []*ssa.Function
+		for f := range reachable(c.CG, rf...) {
+			if f.Blocks == nil || f.Pkg == nil {
+				continue
+			}
+			switch shortName(f.Pkg.Pkg.Path()) {
+			case "in_toto", "internal/spiffe", "cmd":
+				fns = append(fns, f)
+			}
+		}
+		sort.Slice(fns, func(i, j int) bool { return fname(fns[i]) < fname(fns[j]) })
+		for _, f := range fns {
+			n := fname(f)
+			seen := map[string]int{}
 			for _, l := range rangeLoops(f) {
-				what := "range over " + short(l.over)
-				if reason, ok := allow[n][l.over]; ok {
+				seen[l.overType]++
+				what := fmt.Sprintf("range over %s #%d", l.overType, seen[l.overType])
+				ex := c.earlyExits(l)
+				if len(ex) == 0 {
+					c.ok(id, n, what, l.pos, "left only by exhaustion or into a failing continuation ("+short(l.over)+")")
+					continue
+				}
+				if reason, ok := a2SearchLoops[n][l.overType]; ok {
 					c.ok(id, n, what, l.pos, "reviewed early exit: "+reason)
 					continue
 				}
-				ex := c.earlyExits(l)
-				if len(ex) == 0 {
-					c.ok(id, n, what, l.pos, "left only by exhaustion or into a failing continuation")
+				// predicates and searches: a function that returns values but no error cannot "fail"; leaving the loop
+				// with the answer is what it is for (contains, first match, all-of / any-of tests)
+				if rs := resultTypes(f); len(rs) > 0 && errIndex(f) < 0 {
+					c.trivial(id, n, what, l.pos, "predicate / search function (results "+strings.Join(rs, ", ")+"): the early exit carries its answer")
 					continue
 				}
 				pos := l.pos
 				if last := ex[0].from.Instrs[len(ex[0].from.Instrs)-1]; last.Pos() != token.NoPos {
 					pos = last.Pos()
 				}
-				c.bad(id, n, what, pos, fmt.Sprintf("the loop can be left early without failing (%d exit(s), first from block %d to block %d): the remaining elements of %s are not processed", len(ex), ex[0].from.Index, ex[0].to.Index, short(l.over)))
+				c.bad(id, n, what, pos, fmt.Sprintf("the loop over %s can be left early without failing (%d exit edge(s)): the remaining elements are not processed (no rule, artifact, link, key or step may be skipped silently)", short(l.over), len(ex)))
 			}
 		}
 	}}
